@@ -5,7 +5,8 @@ import CssVerif.Model.StrCodec
 A stored STRING / URI value keeps "simple escapes": a backslash in it is either the first half of an escaped
 backslash `\\`, or escapes the character after it. `scan` walks a stored value the way `unicodesub` will walk its
 written form and reports the first reason why `helper.string` / `helper.uri` followed by the tokenizer and
-`stringvalue` / `urivalue` does not give the value back. `none` = the value is safe.
+`stringvalue` / `urivalue` does not give the value back. `none` = the value is safe. (Since the tokenizer removes
+line continuations in the same pass that decodes escapes, strings and quoted URLs have the same predicate.)
 -/
 namespace CssVerif.StrCodec
 open CssVerif.Proto
@@ -13,21 +14,17 @@ open CssVerif.Proto
 inductive Unsafe where
   | dq      -- a double quote with an (unpaired) backslash before it: written `\\"`, which ends the string early
   | bshex   -- an unpaired backslash before hex digits that decode (≤ U+10FFFF): re-read as that code point
-  | bsnl    -- a backslash before a line break: written `\\a `, re-read as `\\a ` (unpaired) or eaten by cleanstring (paired)
+  | bsnl    -- an unpaired backslash before a line break: written `\\a `, re-read as an escaped backslash and `a `
   | trail   -- the value ends in an escaped backslash `\\`: written `\\\"`, the closing quote is escaped
-  | ctrl    -- unquoted URL only: a character the `{url}` macro does not accept (C0 controls, DEL)
 deriving DecidableEq, Repr
 
-/-- `pairNl`: an escaped backslash directly before a line break is fatal (STRING tokens go through `cleanstring`);
-`trailBad`: the written form is quoted, so a trailing escaped backslash is fatal. -/
+/-- `trailBad`: the written form is quoted, so a trailing escaped backslash is fatal. -/
 structure Mode where
-  pairNl : Bool
   trailBad : Bool
 deriving DecidableEq, Repr
 
-def Mode.str : Mode := ⟨true, true⟩      -- written by helper.string, read as a STRING token
-def Mode.uriQ : Mode := ⟨false, true⟩    -- written quoted inside url(), read as a URI token (no cleanstring)
-def Mode.uriU : Mode := ⟨false, false⟩   -- written unquoted inside url()
+def Mode.quoted : Mode := ⟨true⟩      -- written by helper.string (STRING token, or quoted inside url())
+def Mode.unquoted : Mode := ⟨false⟩   -- written unquoted inside url()
 
 def scan (m : Mode) : Cps → Option Unsafe
   | [] => none
@@ -39,7 +36,7 @@ def scan (m : Mode) : Cps → Option Unsafe
         if d = 0x5C then
           (match t' with
             | [] => if m.trailBad then some .trail else none
-            | e :: _ => if m.pairNl && isNl e then some .bsnl else scan m t')
+            | _ :: _ => scan m t')
         else if isHex d then
           -- only six digits that denote something above U+10FFFF are left alone by `_repl`;
           -- the digits are ordinary characters for the rest of the scan
@@ -50,21 +47,16 @@ def scan (m : Mode) : Cps → Option Unsafe
     else scan m t
 
 /-- stored STRING value `v`: `helper.string v` is one STRING token whose stored value is `v` again -/
-def strClass (v : Cps) : Option Unsafe := scan .str v
+def strClass (v : Cps) : Option Unsafe := scan .quoted v
 
 def SafeStr (v : Cps) : Prop := strClass v = none
 
 instance : DecidablePred SafeStr := fun v => (inferInstance : Decidable (strClass v = none))
 
-/-- every character that `{url}` does not accept directly has a backslash right before it -/
-def ctrlOk (prevBs : Bool) : Cps → Bool
-  | [] => true
-  | c :: t => (isUrlChar c || prevBs) && ctrlOk (c == 0x5C) t
-
-/-- stored URL `v`: `helper.uri v` is one URI token whose stored value is `v` again -/
+/-- stored URL `v`: `helper.uri v` is one URI token whose stored value is `v` again. The unquoted form is chosen
+only for values made of characters the `{url}` macro accepts (`isUrlChar_of_not_forb`). -/
 def uriClass (v : Cps) : Option Unsafe :=
-  if forbMatch v then scan .uriQ v
-  else if ctrlOk false v then scan .uriU v else some .ctrl
+  if forbMatch v then scan .quoted v else scan .unquoted v
 
 def SafeUri (v : Cps) : Prop := uriClass v = none
 
